@@ -586,8 +586,15 @@ func (fr *frame) visitInstr(instr ssa.Instruction) continuation {
 	case *ssa.Send:
 		r.chanSend(fr.get(instr.Chan).(*ChanObj), copyVal(fr.get(instr.X)))
 	case *ssa.Store:
+		if ref, ok := fr.get(instr.Addr).(*SymRef); ok {
+			v := fr.get(instr.Val).(*Term)
+			for i := range ref.cells {
+				ref.cells[i] = tIte(tEq(ref.idx, mkBV(ref.idx.S.W, uint64(i))), v, ref.cells[i].(*Term))
+			}
+			break
+		}
 		p := fr.ptr(fr.get(instr.Addr), "store")
-		*p = copyVal(fr.get(instr.Val))
+		storeInto(p, fr.get(instr.Val))
 	case *ssa.If:
 		c := fr.get(instr.Cond)
 		ct, ok := c.(*Term)
@@ -675,6 +682,10 @@ func (fr *frame) visitInstr(instr ssa.Instruction) continuation {
 			if x.SymLen != nil {
 				panic(unsupported("indexing an opaque symbolic-length slice"))
 			}
+			if ref := r.symRef(instr, x.S, idx); ref != nil {
+				fr.env[instr] = ref
+				break
+			}
 			i := r.boundedIndex(idx, len(x.S), instr.Index.Type(), "index")
 			fr.env[instr] = &x.S[i]
 		case *Value:
@@ -682,6 +693,10 @@ func (fr *frame) visitInstr(instr ssa.Instruction) continuation {
 				panic(r.nilDeref("index of nil array pointer"))
 			}
 			a := (*x).(Array)
+			if ref := r.symRef(instr, a, idx); ref != nil {
+				fr.env[instr] = ref
+				break
+			}
 			i := r.boundedIndex(idx, len(a), instr.Index.Type(), "index")
 			fr.env[instr] = &a[i]
 		default:
@@ -796,6 +811,105 @@ func (r *Run) boundedIndex(idx *Term, n int, idxT types.Type, what string) int {
 	return int(c.V)
 }
 
+// SymRef is the address of cells[idx] for a symbolic idx (scalar cells only; used by loads and stores).
+type SymRef struct {
+	cells []Value
+	idx   *Term
+}
+
+// symRef returns a symbolic element reference when idx is symbolic, all cells are scalars of one sort,
+// and the address is only loaded from / stored to. The bounds check is emitted here.
+func (r *Run) symRef(instr *ssa.IndexAddr, cells []Value, idx *Term) *SymRef {
+	if idx.Const || len(cells) == 0 || len(cells) > 512 {
+		return nil
+	}
+	var sort0 Sort
+	for i, c := range cells {
+		t, ok := c.(*Term)
+		if !ok {
+			return nil
+		}
+		if i == 0 {
+			sort0 = t.S
+		} else if t.S != sort0 {
+			return nil
+		}
+	}
+	for _, ref := range *instr.Referrers() {
+		switch u := ref.(type) {
+		case *ssa.UnOp:
+			if u.Op != token.MUL {
+				return nil
+			}
+		case *ssa.Store:
+			if u.Addr != instr {
+				return nil
+			}
+		case *ssa.DebugRef:
+		default:
+			return nil
+		}
+	}
+	w := idx.S.W
+	_, signed, _ := isInt(instr.Index.Type())
+	var inb *Term
+	if signed {
+		inb = tAnd(tBVCmp("bvsge", idx, mkBV(w, 0)), tBVCmp("bvslt", idx, mkBV(w, uint64(len(cells)))))
+	} else {
+		inb = tBVCmp("bvult", idx, mkBV(w, uint64(len(cells))))
+	}
+	if w < 64 && !signed && len(cells) >= 1<<uint(w) {
+		inb = tTrue
+	}
+	if !r.branch(inb) {
+		panic(targetPanic{v: r.runtimeErr("index out of range"), msg: "index out of range"})
+	}
+	return &SymRef{cells: cells, idx: idx}
+}
+
+func (ref *SymRef) load() Value {
+	return iteChain(ref.cells, ref.idx)
+}
+
+func sameTerm(a, b *Term) bool {
+	return a == b || (a.Const && b.Const && a.S == b.S && a.V == b.V)
+}
+
+// iteChain selects cells[idx]; runs of equal cells become one range test (idx <= hi).
+func iteChain(cells []Value, idx *Term) *Term {
+	w := idx.S.W
+	n := len(cells)
+	// run boundaries
+	type run struct {
+		hi int
+		v  *Term
+	}
+	var runs []run
+	for i := 0; i < n; i++ {
+		t := cells[i].(*Term)
+		if len(runs) > 0 && sameTerm(runs[len(runs)-1].v, t) {
+			runs[len(runs)-1].hi = i
+		} else {
+			runs = append(runs, run{i, t})
+		}
+	}
+	res := runs[len(runs)-1].v
+	for k := len(runs) - 2; k >= 0; k-- {
+		lo := 0
+		if k > 0 {
+			lo = runs[k-1].hi + 1
+		}
+		var c *Term
+		if lo == runs[k].hi {
+			c = tEq(idx, mkBV(w, uint64(lo)))
+		} else {
+			c = tBVCmp("bvule", idx, mkBV(w, uint64(runs[k].hi)))
+		}
+		res = tIte(c, runs[k].v, res)
+	}
+	return res
+}
+
 // readIndex reads array[idx] without forking when elements are scalars (ite chain).
 func (r *Run) readIndex(a Array, idx *Term, idxT types.Type) Value {
 	if idx.Const {
@@ -816,11 +930,7 @@ func (r *Run) readIndex(a Array, idx *Term, idxT types.Type) Value {
 		if !r.branch(inb) {
 			panic(targetPanic{v: r.runtimeErr("index out of range"), msg: "index out of range"})
 		}
-		res := a[len(a)-1].(*Term)
-		for i := len(a) - 2; i >= 0; i-- {
-			res = tIte(tEq(idx, mkBV(w, uint64(i))), a[i].(*Term), res)
-		}
-		return res
+		return iteChain(a, idx)
 	}
 	i := r.boundedIndex(idx, len(a), idxT, "index")
 	return a[i]
